@@ -293,17 +293,20 @@ func c16Shared(w *World, r *Report, uc, openM *types.Func) {
 				"the shared "+fv.Name()+" is written without the upstream mutex: two local connections can open two physical sessions or use a half-replaced one")
 		})
 	}
-	// reuse guard
-	fn := w.SSAFunc(uc)
+	// reuse guard (in Connect or in a helper it calls)
+	connFn := w.SSAFunc(uc)
 	key := "method:(*client/upstream.Upstreams).Connect|reuse-guard"
-	if fn == nil {
+	if connFn == nil {
 		r.Undecided("R16.3", key, "-", "anchor unresolved")
 		return
 	}
+	fn := connFn
 	var openCall ssa.Instruction
-	for _, c := range callsIn(fn) {
-		if sCallee(c) == openM {
-			openCall = c
+	for _, g := range staticCone(connFn, 2) {
+		for _, c := range callsIn(g) {
+			if sCallee(c) == openM && openCall == nil {
+				openCall, fn = c, g
+			}
 		}
 	}
 	if openCall == nil {
